@@ -81,6 +81,44 @@ def semantic_oracle(c: B.Case, nprng, trials=2):
     return None
 
 
+def signed_zero_attributes(run: Run):
+    """A program whose dataflow distinguishes +0.0 from -0.0 held in scalar ATTRIBUTES (Constant.value_float, in the main graph and in an
+    If branch): x / c and x * c.  Both constants occur in one program and in both orders of creation; onnxruntime on the built model must
+    give what the dataflow says (numpy), including the signs of zeros and infinities."""
+    import onnxruntime as ort
+    import spox.opset.ai.onnx.v17 as op
+    from spox import Tensor, argument, build
+
+    n = 0
+    xv = np.array([1.0, -2.0, 0.0], np.float32)
+    for first, second in ((0.0, -0.0), (-0.0, 0.0)):
+        x = argument(Tensor(np.float32, (3,)))
+        c = argument(Tensor(np.bool_, ()))
+        a = op.constant(value_float=first)
+        b = op.constant(value_float=second)
+        (r,) = op.if_(c, then_branch=lambda: [op.div(x, op.constant(value_float=second))], else_branch=lambda: [op.div(x, op.constant(value_float=first))])
+        outs = {"qa": op.div(x, a), "qb": op.div(x, b), "pb": op.mul(x, b), "branch": r}
+        with np.errstate(all="ignore"):
+            want = {"qa": xv / np.float32(first), "qb": xv / np.float32(second), "pb": xv * np.float32(second), "branch": xv / np.float32(second)}
+        try:
+            m = build({"x": x, "c": c}, outs)
+            so = ort.SessionOptions()
+            so.log_severity_level = 3
+            so.graph_optimization_level = ort.GraphOptimizationLevel.ORT_DISABLE_ALL
+            got = dict(zip(outs, ort.InferenceSession(m.SerializeToString(), so).run(None, {"x": xv, "c": np.array(True)})))
+        except Exception as e:  # noqa: BLE001
+            run.fail("impl", "C01/signed-zero-attributes/raises", f"{type(e).__name__}: {str(e)[:200]}", {"constants": [first, second]})
+            continue
+        for k in outs:
+            n += 1
+            if not (np.array_equal(got[k], want[k], equal_nan=True) and np.array_equal(np.signbit(got[k]), np.signbit(want[k]))):
+                run.fail("impl", "C01/signed-zero-attributes/wrong-value",
+                         f"{k}: x={xv.tolist()} with the scalar constants {first!r} then {second!r}: the model computes {got[k].tolist()}, the "
+                         f"dataflow says {want[k].tolist()} (signs of zero / infinity compared)", {"constants": [first, second], "output": k})
+                break
+    return n
+
+
 def run(run: Run) -> int:
     run.check_theorems(PROPS, CONE, thorough_coqchk=(run.tier == "thorough"))
     n = 250 if run.tier == "quick" else 4000
@@ -99,6 +137,7 @@ def run(run: Run) -> int:
             run.fail("corr", "C01/spec-plan-premise-not-met", "a program that builds does not satisfy the premise of "
                      "C01_build_sem_by_construction (its specification-level plan is not a well-formed linearisation)", B.describe(c))
             break
+    n_sz = signed_zero_attributes(run)
     nprng = np.random.RandomState(run.seed)
     out_hist = collections.Counter()
     distinct, n_exec, n_bad = set(), 0, 0
@@ -136,6 +175,7 @@ def run(run: Run) -> int:
         "disagreements_checked": len(mism),
         "coverage_theorem_premises_met": f"{sum(cprem)} of {len(built)} programs that build",
         "semantic_theorem_by_construction_premise_met": f"{sum(sprem)} of {len(built)} programs that build",
+        "signed_zero_attribute_comparisons": n_sz,
         "models_executed_ort_vs_numpy": n_exec, "bindings_per_model": 2, "semantic_mismatches": n_bad,
         "input_distribution": {"operators": hist, "outcomes": dict(out_hist)},
         "samples": [B.describe(c) for c in cases[:2]],
